@@ -134,10 +134,11 @@ const (
 	opTruncWrite
 	opLongFragment
 	opRemoveCreate
+	opEcho
 	nOps
 )
 
-var opNames = []string{"append2", "fragment", "complete-fragment", "long-line", "rotate", "truncate+write", "long-fragment", "remove+create"}
+var opNames = []string{"append2", "fragment", "complete-fragment", "long-line", "rotate", "truncate+write", "long-fragment", "remove+create", "line-as-long-as-the-last-fragment"}
 
 type world struct {
 	fs       *memFS
@@ -145,6 +146,7 @@ type world struct {
 	got      []string
 	want     []string
 	pending  string // unterminated tail of the live file
+	lastFrag int    // length of the most recent unterminated tail (survives rotation: a reader must not remember it)
 	serial   int
 	stopColl chan struct{}
 }
@@ -172,16 +174,30 @@ func (w *world) apply(k opKind) {
 		}
 		w.want = append(w.want, a, b)
 		w.send(fsnotify.Write, live)
+	case opEcho:
+		// a complete line exactly as long (newline included) as the unterminated tail seen last: the file grows by
+		// the very number of bytes that were left unread before
+		p := w.lastFrag
+		if p < 2 {
+			p = 2
+		}
+		l := strings.Repeat("e", p-1)
+		w.fs.files[live] = append(w.fs.files[live], []byte(l+"\n")...)
+		w.want = append(w.want, w.pending+l)
+		w.pending = ""
+		w.send(fsnotify.Write, live)
 	case opFragment:
 		f := "frag-" + w.line()
 		w.fs.files[live] = append(w.fs.files[live], []byte(f)...)
 		w.pending += f
+		w.lastFrag = len(w.pending)
 		w.send(fsnotify.Write, live)
 	case opLongFragment:
 		// an unterminated tail longer than the 4096-byte read buffer
 		f := "lfrag-" + w.line() + strings.Repeat("F", 5000)
 		w.fs.files[live] = append(w.fs.files[live], []byte(f)...)
 		w.pending += f
+		w.lastFrag = len(w.pending)
 		w.send(fsnotify.Write, live)
 	case opComplete:
 		w.fs.files[live] = append(w.fs.files[live], []byte("-end\n")...)
@@ -345,6 +361,7 @@ func runCaseHold(t *testing.T, d initDir, ops []opKind, hold int) (msg string) {
 		w.want = append(w.want, init...)
 		if i := strings.LastIndexByte(d.Files["audit.log"], '\n'); i < len(d.Files["audit.log"])-1 {
 			w.pending = d.Files["audit.log"][i+1:]
+			w.lastFrag = len(w.pending)
 		}
 		ctx, cancel := context.WithCancel(context.Background())
 		r := dirreader.VerifStart(ctx, dir, entries, w.fs.open, w.events)
@@ -511,7 +528,7 @@ func runC20(t *testing.T, run *mc.Run) int {
 						switch o {
 						case opFragment, opLongFragment:
 							pend = true
-						case opAppend2, opComplete, opLong, opRotate, opTruncWrite, opRemoveCreate:
+						case opAppend2, opComplete, opLong, opRotate, opTruncWrite, opRemoveCreate, opEcho:
 							pend = false
 						}
 					}
@@ -564,7 +581,7 @@ func runC20(t *testing.T, run *mc.Run) int {
 		samples = samples[:8]
 	}
 	cov := mc.Coverage{Level: "model_checking", States: n, Transitions: n * depth, Traces: n, Evaluations: n, Distinct: withRotation, Exhaustive: complete, Samples: samples,
-		Rule:  fmt.Sprintf("the real LogDirReader loop in a synctest bubble over an in-memory file system: every sequence of <=%d operations over {append 2 lines, append a fragment, append a 5 kB fragment, complete it, append a 5 kB line, rotate (rename+create chain), truncate then write, remove then create} from %d small initial directories, each change followed by its fsnotify events one at a time with quiescence in between; plus %d initial directories with 0..12 and sparse (10,100,999) rotated files x {start only, append, rotate+append}; plus, for every small directory, the consumer of Lines() stalled after each number of initial lines while the live file is appended to (event delivered during the initial read), then resumed and flushed by a later append. Oracle: strings from Lines() == reference list. distinct_nontrivial = sequences containing a rotation or truncation", depth, len(small), len(big)),
+		Rule:  fmt.Sprintf("the real LogDirReader loop in a synctest bubble over an in-memory file system: every sequence of <=%d operations over {append 2 lines, append a fragment, append a 5 kB fragment, complete it, append a 5 kB line, rotate (rename+create chain), truncate then write, remove then create, append a line exactly as long as the last unterminated tail} from %d small initial directories, each change followed by its fsnotify events one at a time with quiescence in between; plus %d initial directories with 0..12 and sparse (10,100,999) rotated files x {start only, append, rotate+append}; plus, for every small directory, the consumer of Lines() stalled after each number of initial lines while the live file is appended to (event delivered during the initial read), then resumed and flushed by a later append. Oracle: strings from Lines() == reference list. distinct_nontrivial = sequences containing a rotation or truncation", depth, len(small), len(big)),
 		Extra: map[string]any{"max_ops": depth, "initial_dirs": len(small) + len(big), "changes_during_initial_read": during}}
 	cov.Assumptions = []string{"testing/synctest semantics; in-memory file system with read-through handles; events delivered one at a time (the property's proviso)"}
 	return run.Finish(cov)
